@@ -380,7 +380,8 @@ SPELL = [
     ("dot", ".5"), ("minusdot", "-.75"), ("plusdot", "+.25"), ("exp", "2e1"), ("expneg", "5E-1"),
     ("expplus", "-2.5e+1"), ("dotexp", ".5e1"), ("expdot", "1e-3"),
 ]
-SEPS = [("none", ""), ("comma", ","), ("blank", " "), ("commablank", " , "), ("nltab", "\n\t")]
+SEPS = [("none", ""), ("comma", ","), ("blank", " "), ("commablank", " , "), ("nltab", "\n\t"), ("cr", "\r"),
+        ("formfeed", "\x0c"), ("crlfcomma", "\r\n,\x0c")]       # all five wsp characters of the grammar occur
 
 
 def exhaustive_strings(quick=True):
@@ -480,7 +481,7 @@ def spell_number(rng, mag, nonneg=False):
     return t
 
 
-NNSEPS = [" ", " ", ",", ",", " , ", ", ", "\n", "\t ", "", "", ""]
+NNSEPS = [" ", " ", ",", ",", " , ", ", ", "\n", "\t ", "", "", "", "\r", "\x0c", " \x0c,\r\n"]
 
 
 def random_sepf(rng):
@@ -1609,6 +1610,11 @@ def c07_strings(rng, tier):
         for _ in range(k2):
             y2 = math.nextafter(y2, -math.inf)
         yield "M %r,%r L %r,%r L %r,%r" % (x, y, x2, y2, x + base / 7, y), "near-coincident"
+    # coordinates and offsets that are written in exponent form, incl. exponents whose decimal text ends in 0
+    for mant in (2.5, 7.75, 1.5, 3.0, 9.999):
+        for ex in (-5, -7, -10, -11, -20, -30):
+            v = mant * 10.0 ** ex
+            yield "M %r,80 L %r,1 l %r,%r L 3,%r" % (v, -v, v, 2 * v, v), "exponent-form"
     # arcs whose radii need more than 6 digits
     for i in range(150 if tier == "quick" else 2000):
         mag = mags[i % len(mags)]
